@@ -165,6 +165,96 @@ pub fn observe(p: &Program, text: &str, monitors: bool) -> Observed {
     ob
 }
 
+/// The first CORPUS_SLOTS case indices of C01 replay the repository's own test programs
+/// (tests/**/*.sy) under luamon with their `// error:` annotations as the oracle.
+const CORPUS_SLOTS: u64 = 400;
+
+fn corpus_files() -> &'static (Vec<String>, sy::Files) {
+    static C: std::sync::OnceLock<(Vec<String>, sy::Files)> = std::sync::OnceLock::new();
+    C.get_or_init(|| {
+        let mut files = sy::Files::new();
+        fn walk(dir: &std::path::Path, out: &mut sy::Files) {
+            let Ok(rd) = std::fs::read_dir(dir) else { return };
+            let mut es: Vec<_> = rd.flatten().map(|e| e.path()).collect();
+            es.sort();
+            for p in es {
+                if p.is_dir() {
+                    walk(&p, out);
+                } else if p.extension().map(|e| e == "sy").unwrap_or(false) {
+                    if let Ok(t) = std::fs::read_to_string(&p) {
+                        out.insert(p.display().to_string(), t);
+                    }
+                }
+            }
+        }
+        walk(std::path::Path::new("/repo/tests"), &mut files);
+        // test programs are the files that define `start`
+        // (files whose name starts with `_` are helpers / disabled tests: the repo's own runner skips them)
+        let mains: Vec<String> = files
+            .iter()
+            .filter(|(k, t)| (t.contains("start ::") || t.contains("start:")) && !k.rsplit('/').next().unwrap_or("").starts_with('_'))
+            .map(|(k, _)| k.clone())
+            .collect();
+        (mains, files)
+    })
+}
+
+fn corpus_case(index: u64, st: &mut Stats) {
+    let (mains, files) = corpus_files();
+    let Some(path) = mains.get(index as usize) else { return };
+    let text = &files[path];
+    let mut expect_runtime = false;
+    let mut expect_compile_errors = 0;
+    for l in text.lines() {
+        if let Some(rest) = l.strip_prefix("// error:") {
+            if rest.trim().starts_with('#') || rest.trim() == "Runtime" {
+                expect_runtime = true;
+            } else {
+                expect_compile_errors += 1;
+            }
+        }
+    }
+    st.count("corpus:programs");
+    let r = sy::compile_files(files, path, &sy::CompileOpts { fuel: Some(crate::rel::CAMPAIGN_FUEL), ..Default::default() });
+    let viol = |sig: String, extra: J| Violation { signature: sig, hazard: None, case: index, detail: J::obj().with("corpus_file", J::s(path.clone())).with("observed", extra) };
+    match r {
+        Compiled::Fuel => st.count("corpus:compile_budget"),
+        Compiled::Panic { location, msg, .. } => st.violation(viol(format!("corpus:panic@{}", location), J::s(msg))),
+        Compiled::Err { errors, .. } => {
+            if expect_compile_errors > 0 {
+                st.count("corpus:rejected_as_annotated");
+            } else {
+                st.violation(viol("corpus:rejected-but-annotated-as-passing".into(), J::s(errors.first().map(|e| e.display.clone()).unwrap_or_default())));
+            }
+        }
+        Compiled::Ok(b) => {
+            if expect_compile_errors > 0 && !expect_runtime {
+                st.violation(viol("corpus:accepted-but-annotated-with-compile-errors".into(), J::Null));
+                return;
+            }
+            let lua_text = String::from_utf8_lossy(&b).to_string();
+            match lua::load(&lua_text) {
+                Loaded::GreyZone(_) => st.count("corpus:grey_zone"),
+                Loaded::Error { class, line, msg } => st.violation(viol(format!("corpus:load:{}", class), J::s(format!("line {}: {} | {}", line, msg, lua_text.lines().nth(line.saturating_sub(1) as usize).unwrap_or(""))))),
+                Loaded::Ok(c) => {
+                    let rr = lua::run(&c, true);
+                    st.add("corpus:lua_calls", rr.counters.calls);
+                    match (&rr.outcome, expect_runtime) {
+                        (lua::Outcome::Ok, false) => st.count("corpus:ran_ok_as_annotated"),
+                        (lua::Outcome::Error(_), true) => st.count("corpus:runtime_error_as_annotated"),
+                        (lua::Outcome::Budget(_), _) => st.count("corpus:run_budget"),
+                        (lua::Outcome::Ok, true) => st.violation(viol("corpus:ran-ok-but-annotated-with-runtime-error".into(), J::Null)),
+                        (lua::Outcome::Error(e), false) => st.violation(viol(
+                            format!("corpus:runtime-error:{}", lua::class_name(&e.class)),
+                            J::s(format!("{} (line {}): {}", e.msg, e.line, lua_text.lines().nth(e.line.saturating_sub(1) as usize).unwrap_or("").trim())),
+                        )),
+                    }
+                }
+            }
+        }
+    }
+}
+
 const REQUIRED_FEATURES: &[&str] = &[
     "int_arith",
     "float_arith",
@@ -202,6 +292,10 @@ impl Check for Traced {
         scaled(ctx, 20_000, 600_000)
     }
     fn run_case(&self, ctx: &Ctx, index: u64, st: &mut Stats) {
+        if self.prop == "C01" && index < CORPUS_SLOTS {
+            corpus_case(index, st);
+            return;
+        }
         let mut rng = Rng::for_case(ctx.seed, self.prop, index);
         let depth = match ctx.tier {
             Tier::Quick => 2 + (index % 2) as u32,
@@ -296,7 +390,7 @@ impl Check for Traced {
                 }
                 // benign: a function whose last statement is a value-less if/case returns that
                 // statement's (never assigned) result variable; the value is void and unused
-                if matches!(e, lua::Event::UninitRead { .. }) && ob.lua_text.lines().nth(line.saturating_sub(1) as usize).map(|l| l.trim().starts_with("return V")).unwrap_or(false) {
+                if matches!(e, lua::Event::UninitRead { .. }) && ob.lua_text.lines().nth(line.saturating_sub(1) as usize).map(|l| l.trim().starts_with("return V") || l.trim().starts_with("do return V")).unwrap_or(false) {
                     st.count("monitor:benign_return_of_valueless_if");
                     continue;
                 }
